@@ -180,8 +180,9 @@ inductive Ev where
   | ran (idx : Nat) (d : Desc) (arg : Nat)
   /-- subscriber callback: `(res, SUCCESS)` when `ok`, `(None, DISCARDED)` otherwise -/
   | callback (cb : Nat) (res : Res) (ok : Bool)
-  /-- `conf.onCodeVersionChanged(old, new)` -/
-  | versionChanged (old new : Nat)
+  /-- `conf.onCodeVersionChanged(old, new)`; `hookEnabled` / `hookTableVer` = what the hook sees when it runs:
+  `getCodeVersion()` and the version the name table was built for (a call issued from the hook resolves with it) -/
+  | versionChanged (old new : Nat) (hookEnabled hookTableVer : Nat)
   /-- `SyncObjExceptionWrongVer` caught and logged -/
   | wrongVer (self req : Nat)
   /-- `KeyError` from `_idToMethod[funcID]`: caught in `__doApplyCommand`, logged, returned as the result (D9) -/
@@ -223,7 +224,10 @@ def applyEntry (n : Node) (e : Entry) : Node × List Ev × Bool :=
       -- WrongVer: logged, subscribers kept (the entry is retried on the next tick), batch stops (D10)
       (n, [Ev.wrongVer (selfCodeVersion n.cls) v], false)
     else
-      done { n with enabled := v, tableVer := v } [Ev.versionChanged n.enabled v] .none
+      -- statement order of `__doApplyCommand`: enabled version, then the name table, then the user's hook
+      let n1 := { n with enabled := v }            -- self.__enabledCodeVersion = ver
+      let n2 := { n1 with tableVer := v }          -- self.__onSetCodeVersion(ver)
+      done n2 [Ev.versionChanged n.enabled v n2.enabled n2.tableVer] .none   -- callback(oldVer, ver)
   | .regular fid arg =>
     match (idToMethod n.cls)[fid]? with
     | none => done n [Ev.unknownId e.idx fid] (.keyError fid)
